@@ -162,9 +162,14 @@ def _pred(E, s, X, k, r):
 
 @contract(F + "::IntervalRegressor.predict_all", "C17")
 class PredictAll(Contract):
+    variants = ["float64", "int64", "float32"]      # the dtype of the query batch must not change what is stored
+
     def setup(self, E, v):
         n, d = E.size("n", 0), E.size("d", 1)
-        return dict(self=_fitted_self(E), X=E.nd("X", (n, d)))
+        X = E.nd("X", (n, d), "int" if v == "int64" else "real")
+        if v == "float32":
+            X.cell.dtype_name = "float32"
+        return dict(self=_fitted_self(E), X=X)
 
     def old(self, E, a):
         return dict(X=a.X.snapshot())
